@@ -6,20 +6,25 @@ import Verif.Model.Renew
   authority/authorize.go `authorizeRenew`, the provisioner lookups and `DefaultAuthorizeRenew`,
   and Go's extension assembly), tied to /repo by the C09 correspondence stages.
 
-  Part A: the gates.  Part B: fidelity.
+  Part A: the gates.  Part B: fidelity.  `current` (= /repo HEAD) is `repaired`; the theorems
+  named `…_current` are the registered full-strength statements about it; `asCodedBefore` and
+  `fixedD9D17` are the two earlier trees, kept for the historic refutations.
 -/
 namespace Verif.Renew
 open Verif
 
 /-! # Part A — gates -/
 
+/-- the provisioner the certificate records and that still loads: by database id first, else by
+    the name in the extension -/
 def foundProv (i : GateIn) : Option Stored :=
   match i.db with
-  | .found p => some p
+  | .found p _ => some p
   | _ => match i.ext with
     | .found p => some p
     | _ => none
 
+/-- the certificate records no provisioner anywhere -/
 def recordsNone (i : GateIn) : Prop := i.db = .noRecord ∧ i.ext = .noExt
 
 instance (i : GateIn) : Decidable (recordsNone i) := by unfold recordsNone; infer_instance
@@ -32,14 +37,29 @@ def StoredAllows (i : GateIn) (s : Stored) : Prop :=
 def GateSpec (i : GateIn) : Prop :=
   i.revoked = .no ∧ (recordsNone i ∨ ∃ s, foundProv i = some s ∧ StoredAllows i s)
 
+/-- the D17 shape: the database names a provisioner that no longer loads, no extension -/
+def D17Shape (i : GateIn) : Prop := i.db = .gone ∧ i.ext = .noExt
+
+/-- the selected provisioner is an uninitialised one (D9 shape); `RAWrapped`: through a database
+    record with RA information (D9-RA shape) -/
+def UninitSelected (i : GateIn) : Prop := foundProv i = some .uninit
+def RAWrapped (i : GateIn) : Prop := ∃ p, i.db = .found p true
+
 /-! ### lemmas: which provisioner is selected -/
 
-theorem select_stored (v : Variant) (i : GateIn) (s : Stored) :
-    selectProvisioner v i = some (.stored s) ↔ foundProv i = some s := by
+theorem select_stored (v : Variant) (i : GateIn) (s : Stored) (w : Bool) :
+    selectProvisioner v i = some (.stored s w) → foundProv i = some s := by
   obtain ⟨rev, db, ext, nyv, exp⟩ := i
   cases db <;> cases ext <;>
     simp [selectProvisioner, loadByCertificate, loadFromExtension, collectionLoadByCertificate, foundProv]
   all_goals (try (split <;> simp))
+  all_goals (intro h _; exact h)
+
+theorem select_of_found (v : Variant) (i : GateIn) (s : Stored) (h : foundProv i = some s) :
+    ∃ w, selectProvisioner v i = some (.stored s w) ∧ (w = true ↔ i.db = .found s true) := by
+  obtain ⟨rev, db, ext, nyv, exp⟩ := i
+  cases db <;> cases ext <;>
+    simp_all [selectProvisioner, loadByCertificate, loadFromExtension, collectionLoadByCertificate, foundProv]
 
 theorem select_noop (v : Variant) (i : GateIn) :
     selectProvisioner v i = some .noop ↔
@@ -58,18 +78,19 @@ theorem select_none (v : Variant) (i : GateIn) :
 
 /-! ### lemmas: what the selected provisioner answers -/
 
-theorem call_stored_allow (v : Variant) (i : GateIn) (s : Stored) :
-    callAuthorizeRenew v i (.stored s) = .val .allow ↔ StoredAllows i s := by
+theorem call_stored_allow (v : Variant) (i : GateIn) (s : Stored) (w : Bool) :
+    callAuthorizeRenew v i (.stored s w) = .val .allow ↔ StoredAllows i s := by
   obtain ⟨rev, db, ext, nyv, exp⟩ := i
   unfold StoredAllows
   rcases s with ⟨d, a, c⟩ | _ | _
   · cases d <;> cases a <;> cases c <;> cases nyv <;> cases exp <;>
       simp [callAuthorizeRenew, provAuthorizeRenew, defaultAuthorizeRenew]
-  · cases h : v.refuseUninit <;> simp [callAuthorizeRenew, provAuthorizeRenew, h]
-  · cases h : v.refuseUninit <;> simp [callAuthorizeRenew, provAuthorizeRenew, h]
+  · simp [callAuthorizeRenew, provAuthorizeRenew]
+  · simp only [callAuthorizeRenew]
+    split <;> simp [provAuthorizeRenew]
 
 theorem call_noop (v : Variant) (i : GateIn) : callAuthorizeRenew v i .noop = .val .allow := by
-  cases h : v.refuseUninit <;> simp [callAuthorizeRenew, provAuthorizeRenew, h]
+  simp [callAuthorizeRenew, provAuthorizeRenew]
 
 theorem decide_allow_iff (v : Variant) (i : GateIn) :
     decide v i = .val .allow ↔
@@ -80,6 +101,9 @@ theorem decide_allow_iff (v : Variant) (i : GateIn) :
   | none => simp
   | some p => cases hc : callAuthorizeRenew v i p <;> simp [hc]
 
+/-- **gates** (every variant with the D17 repair, in particular `current`): allowed ⇒ not revoked
+    and either the certificate records no provisioner anywhere, or the provisioner it records was
+    found and its `AuthorizeRenew` conditions hold. -/
 theorem gates (v : Variant) (hv : v.noNoopWhenDbNames = true) (i : GateIn) :
     decide v i = .val .allow → GateSpec i := by
   rw [decide_allow_iff]
@@ -90,10 +114,15 @@ theorem gates (v : Variant) (hv : v.noNoopWhenDbNames = true) (i : GateIn) :
     have := (select_noop v i).1 hp
     simp [hv] at this
     exact .inl ⟨this.2, this.1⟩
-  | stored s =>
-    exact .inr ⟨s, (select_stored v i s).1 hp, (call_stored_allow v i s).1 hc⟩
+  | stored s w =>
+    exact .inr ⟨s, select_stored v i s w hp, (call_stored_allow v i s w).1 hc⟩
 
-theorem gates_partial (v : Variant) (i : GateIn) (hx : ¬ (i.db = .gone ∧ i.ext = .noExt)) :
+/-- **gates_current**: the full-strength statement about /repo HEAD. -/
+theorem gates_current (i : GateIn) : decide current i = .val .allow → GateSpec i :=
+  gates current rfl i
+
+/-- any variant, outside the D17 shape (this was the most one could say before commit 33e7bf8) -/
+theorem gates_partial (v : Variant) (i : GateIn) (hx : ¬ D17Shape i) :
     decide v i = .val .allow → GateSpec i := by
   rw [decide_allow_iff]
   rintro ⟨hr, p, hp, hc⟩
@@ -104,26 +133,27 @@ theorem gates_partial (v : Variant) (i : GateIn) (hx : ¬ (i.db = .gone ∧ i.ex
     rcases this with ⟨he, hd | ⟨hd, _⟩⟩
     · exact .inl ⟨hd, he⟩
     · exact absurd ⟨hd, he⟩ hx
-  | stored s =>
-    exact .inr ⟨s, (select_stored v i s).1 hp, (call_stored_allow v i s).1 hc⟩
+  | stored s w =>
+    exact .inr ⟨s, select_stored v i s w hp, (call_stored_allow v i s w).1 hc⟩
 
 /-- D17 witness -/
 def d17 : GateIn := ⟨.no, .gone, .noExt, false, false⟩
 
-theorem gates_refuted : ¬ ∀ i, decide asCoded i = .val .allow → GateSpec i := by
+/-- historic (before 33e7bf8): a database-only certificate of a removed provisioner was allowed -/
+theorem gates_refuted : ¬ ∀ i, decide asCodedBefore i = .val .allow → GateSpec i := by
   intro h
   have := h d17 (by decide)
   simp [GateSpec, recordsNone, d17, foundProv] at this
 
-/-- converse -/
+/-- converse of `gates`: the gates refuse nothing the specification admits -/
 theorem gates_complete (v : Variant) (i : GateIn) : GateSpec i → decide v i = .val .allow := by
   rw [decide_allow_iff]
   rintro ⟨hr, h⟩
   refine ⟨hr, ?_⟩
   rcases h with ⟨hd, he⟩ | ⟨s, hf, ha⟩
   · exact ⟨.noop, (select_noop v i).2 ⟨he, .inl hd⟩, call_noop v i⟩
-  · exact ⟨.stored s, (select_stored v i s).2 hf, (call_stored_allow v i s).2 ha⟩
-
+  · obtain ⟨w, hw, -⟩ := select_of_found v i s hf
+    exact ⟨.stored s w, hw, (call_stored_allow v i s w).2 ha⟩
 
 /-! # Part B — fidelity -/
 
@@ -426,9 +456,9 @@ theorem decide_of_select_none (v : Variant) (i : GateIn) (hr : i.revoked = .no)
     (h : selectProvisioner v i = none) : decide v i = .val (.refuse .provisionerNotFound) := by
   simp [decide, authorizeRenew, hr, h]
 
-/-- **removed_provisioner_refused** (repaired code): a certificate that records a provisioner
-    (in the database, in its extension, or both) none of which loads any more is refused, with
-    "provisioner not found", whatever else holds. -/
+/-- **removed_provisioner_refused** (every variant with the D17 repair): a certificate that records
+    a provisioner (in the database, in its extension, or both) none of which loads any more is
+    refused, with "provisioner not found", whatever else holds. -/
 theorem removed_provisioner_refused (v : Variant) (hv : v.noNoopWhenDbNames = true) (i : GateIn)
     (hr : i.revoked = .no) (hf : foundProv i = none) (hn : ¬ recordsNone i) :
     decide v i = .val (.refuse .provisionerNotFound) := by
@@ -438,36 +468,39 @@ theorem removed_provisioner_refused (v : Variant) (hv : v.noNoopWhenDbNames = tr
   obtain ⟨rev, db, ext, nyv, exp⟩ := i
   cases db <;> cases ext <;> simp_all [recordsNone, foundProv]
 
-/-- … as coded the same holds when the certificate carries the provisioner extension, or the
-    database holds no record for it (i.e. outside the D17 shape). -/
-theorem removed_provisioner_refused_partial (v : Variant) (i : GateIn)
-    (hx : ¬ (i.db = .gone ∧ i.ext = .noExt))
+/-- the full-strength statement about /repo HEAD -/
+theorem removed_provisioner_refused_current (i : GateIn)
+    (hr : i.revoked = .no) (hf : foundProv i = none) (hn : ¬ recordsNone i) :
+    decide current i = .val (.refuse .provisionerNotFound) :=
+  removed_provisioner_refused current rfl i hr hf hn
+
+/-- any variant, outside the D17 shape -/
+theorem removed_provisioner_refused_partial (v : Variant) (i : GateIn) (hx : ¬ D17Shape i)
     (hr : i.revoked = .no) (hf : foundProv i = none) (hn : ¬ recordsNone i) :
     decide v i = .val (.refuse .provisionerNotFound) := by
   apply decide_of_select_none v i hr
   rw [select_none]
   refine ⟨hf, ?_⟩
   obtain ⟨rev, db, ext, nyv, exp⟩ := i
-  cases db <;> cases ext <;> simp_all [recordsNone, foundProv]
+  cases db <;> cases ext <;> simp_all [recordsNone, foundProv, D17Shape]
 
-/-- D17: as coded, the database-only certificate of a removed provisioner is renewed. -/
+/-- historic (before 33e7bf8): the database-only certificate of a removed provisioner was renewed -/
 theorem removed_provisioner_refused_refuted :
-    ¬ ∀ i, i.revoked = .no → foundProv i = none → ¬ recordsNone i → Refused asCoded i := by
+    ¬ ∀ i, i.revoked = .no → foundProv i = none → ¬ recordsNone i → Refused asCodedBefore i := by
   intro h
   obtain ⟨r, hr⟩ := h d17 rfl rfl (by simp [recordsNone, d17])
-  have : decide asCoded d17 = .val .allow := by decide
+  have : decide asCodedBefore d17 = .val .allow := by decide
   rw [this] at hr; cases hr
 
-/-- The D17 shape is the *only* input on which the two variants of the lookup differ, and the
-    D9 shape the only one on which the two variants of the call differ: the repairs change
-    nothing else. -/
+/-- The three repairs change the decision on no input outside the D17 shape and the D9 shape
+    (selected provisioner uninitialised): any two variants agree everywhere else. -/
 theorem variants_agree (v w : Variant) (i : GateIn)
-    (h17 : ¬ (i.db = .gone ∧ i.ext = .noExt)) (h9 : foundProv i ≠ some .uninit) :
+    (h17 : ¬ D17Shape i) (h9 : ¬ UninitSelected i) :
     decide v i = decide w i := by
   have hs : selectProvisioner v i = selectProvisioner w i := by
     obtain ⟨rev, db, ext, nyv, exp⟩ := i
     cases db <;> cases ext <;>
-      simp_all [selectProvisioner, loadByCertificate, loadFromExtension, collectionLoadByCertificate]
+      simp_all [selectProvisioner, loadByCertificate, loadFromExtension, collectionLoadByCertificate, D17Shape]
   unfold decide authorizeRenew
   cases hr : i.revoked <;> simp only []
   rw [← hs]
@@ -477,14 +510,15 @@ theorem variants_agree (v w : Variant) (i : GateIn)
     have hc : callAuthorizeRenew v i p = callAuthorizeRenew w i p := by
       cases p with
       | noop => simp [callAuthorizeRenew]
-      | stored s =>
-        have := (select_stored v i s).1 hp
-        have hne : s ≠ .uninit := fun e => h9 (e ▸ this)
-        simp [callAuthorizeRenew, hne]
+      | stored s wr =>
+        have := select_stored v i s wr hp
+        have hne : s ≠ .uninit := fun e => h9 (by unfold UninitSelected; rw [this, e])
+        cases s <;> simp_all [callAuthorizeRenew]
     simp only [hc]
 
-/-- **no_crash** (repaired code): `authorizeRenew` never panics. -/
-theorem no_crash (v : Variant) (hv : v.refuseUninit = true) (i : GateIn) : decide v i ≠ .crash := by
+/-- **no_crash** (every variant with the D9 and D9-RA repairs): `authorizeRenew` never panics. -/
+theorem no_crash (v : Variant) (hv : v.refuseUninit = true) (hu : v.unwrapUninit = true) (i : GateIn) :
+    decide v i ≠ .crash := by
   unfold decide authorizeRenew
   cases i.revoked <;> simp only [] <;> try (intro h; cases h)
   cases hp : selectProvisioner v i with
@@ -493,32 +527,56 @@ theorem no_crash (v : Variant) (hv : v.refuseUninit = true) (i : GateIn) : decid
     simp only []
     have : callAuthorizeRenew v i p ≠ .crash := by
       unfold callAuthorizeRenew
-      rcases p with ⟨⟨d, a, c⟩ | _ | _⟩ | _ <;> simp [hv, provAuthorizeRenew]
+      rcases p with ⟨⟨d, a, c⟩ | _ | _, w⟩ | _ <;> simp [hv, hu, provAuthorizeRenew]
       cases c <;> simp
     cases hc : callAuthorizeRenew v i p with
     | crash => exact absurd hc this
     | val d => intro h; cases h
 
-/-- … as coded: no panic unless the selected provisioner is an uninitialised one. -/
-theorem no_crash_partial (v : Variant) (i : GateIn) (h9 : foundProv i ≠ some .uninit) :
+/-- the full-strength statement about /repo HEAD -/
+theorem no_crash_current (i : GateIn) : decide current i ≠ .crash := no_crash current rfl rfl i
+
+/-- any variant: no panic unless the selected provisioner is an uninitialised one -/
+theorem no_crash_partial (v : Variant) (i : GateIn) (h9 : ¬ UninitSelected i) :
     decide v i ≠ .crash := by
-  have h := no_crash repaired rfl i
-  by_cases h17 : i.db = .gone ∧ i.ext = .noExt
+  have h := no_crash repaired rfl rfl i
+  by_cases h17 : D17Shape i
   · -- the D17 shape selects noop (or nothing): no panic either way
     obtain ⟨rev, db, ext, nyv, exp⟩ := i
     obtain ⟨hd, he⟩ := h17
     simp only at hd he; subst hd; subst he
-    cases rev <;> cases hv : v.noNoopWhenDbNames <;> cases hu : v.refuseUninit <;>
+    cases rev <;> cases hv : v.noNoopWhenDbNames <;>
       simp [decide, authorizeRenew, selectProvisioner, loadByCertificate, loadFromExtension,
-        collectionLoadByCertificate, callAuthorizeRenew, provAuthorizeRenew, hv, hu]
+        collectionLoadByCertificate, callAuthorizeRenew, provAuthorizeRenew, hv]
   · rw [variants_agree v repaired i h17 h9]; exact h
 
-/-- D9 witness: database record (and extension) resolve to an uninitialised provisioner. -/
-def d9 : GateIn := ⟨.no, .found .uninit, .found .uninit, false, false⟩
+/-- the tree between c93b602 and df3f6ee: no panic unless the uninitialised provisioner comes out
+    of a database record with RA information -/
+theorem no_crash_fixedD9D17 (i : GateIn) (hra : ¬ (UninitSelected i ∧ RAWrapped i)) :
+    decide fixedD9D17 i ≠ .crash := by
+  by_cases h9 : UninitSelected i
+  · have hnra : ¬ RAWrapped i := fun h => hra ⟨h9, h⟩
+    obtain ⟨rev, db, ext, nyv, exp⟩ := i
+    unfold UninitSelected foundProv at h9
+    unfold RAWrapped at hnra
+    cases rev <;> cases db <;> cases ext <;>
+      simp_all [decide, authorizeRenew, selectProvisioner, loadByCertificate, loadFromExtension,
+        collectionLoadByCertificate, callAuthorizeRenew, fixedD9D17]
+    all_goals (rename_i w _; cases w <;> simp_all)
+  · exact no_crash_partial _ i h9
 
-/-- D9: as coded, renewing a certificate of an uninitialised provisioner panics. -/
-theorem uninit_crash : ¬ ∀ i, decide asCoded i ≠ .crash := by
+/-- D9 witness: database record (and extension) resolve to an uninitialised provisioner. -/
+def d9 : GateIn := ⟨.no, .found .uninit false, .found .uninit, false, false⟩
+/-- D9-RA witness: the same through a database record with RA information. -/
+def d9ra : GateIn := ⟨.no, .found .uninit true, .noExt, false, false⟩
+
+/-- historic (before c93b602): renewing a certificate of an uninitialised provisioner panicked -/
+theorem uninit_crash : ¬ ∀ i, decide asCodedBefore i ≠ .crash := by
   intro h; exact h d9 (by decide)
+
+/-- historic (between c93b602 and df3f6ee): the RA-wrapped record still panicked -/
+theorem ra_uninit_crash : ¬ ∀ i, decide fixedD9D17 i ≠ .crash := by
+  intro h; exact h d9ra (by decide)
 
 /-- Revocation and removal dominate a custom `AuthorizeRenewFunc`: whatever function the
     embedder configures, it is consulted only for a non-revoked certificate whose provisioner
@@ -680,7 +738,7 @@ def certX : Cert :=
       ⟨oidAKI, false, [5, 0x99]⟩, ⟨oidSAN, false, [7]⟩, ⟨oidStepProvisioner, false, [42]⟩,
       ⟨[1, 2, 3, 4], true, [43]⟩] }
 
-def okGate : GateIn := ⟨.no, .found (.ctl false false .none), .found (.ctl false false .none), false, false⟩
+def okGate : GateIn := ⟨.no, .found (.ctl false false .none) false, .found (.ctl false false .none), false, false⟩
 
 example : Consistent certX := by unfold Consistent; decide
 example : hasOid oidSKI certX.extensions = true := by decide
@@ -700,13 +758,16 @@ example : decide current okGate = .val .allow ∧ GateSpec okGate :=
   ⟨by decide, gates_complete current okGate |> fun _ => by
     refine ⟨rfl, .inr ⟨_, rfl, false, false, .none, rfl, .inr ⟨rfl, rfl, rfl, .inl rfl⟩⟩⟩⟩
 example : decide current ⟨.no, .noRecord, .noExt, true, true⟩ = .val .allow := by decide
-example : decide current ⟨.no, .found (.ctl false true .none), .noExt, false, true⟩ = .val .allow := by decide
-example : decide current ⟨.no, .found (.ctl false false .none), .noExt, false, true⟩ = .val (.refuse .expired) := by decide
+example : decide current ⟨.no, .found (.ctl false true .none) false, .noExt, false, true⟩ = .val .allow := by decide
+example : decide current ⟨.no, .found (.ctl false false .none) true, .noExt, false, true⟩ = .val (.refuse .expired) := by decide
 example : decide current ⟨.no, .gone, .found (.ctl true false .none), false, false⟩ = .val (.refuse .renewDisabled) := by decide
 example : decide current ⟨.yes, .noRecord, .noExt, false, false⟩ = .val (.refuse .revoked) := by decide
-/-- the D17 and D9 shapes under both variants -/
-example : decide asCoded d17 = .val .allow ∧ decide repaired d17 = .val (.refuse .provisionerNotFound) := by decide
-example : decide asCoded d9 = .crash ∧ decide repaired d9 = .val (.refuse .uninitialized) := by decide
+/-- the D17, D9 and D9-RA shapes under the three trees -/
+example : decide asCodedBefore d17 = .val .allow ∧ decide current d17 = .val (.refuse .provisionerNotFound) := by decide
+example : decide asCodedBefore d9 = .crash ∧ decide fixedD9D17 d9 = .val (.refuse .uninitialized) := by decide
+example : decide fixedD9D17 d9ra = .crash ∧ decide current d9ra = .val (.refuse .uninitialized) := by decide
+/-- the hypothesis of `no_crash_fixedD9D17` is satisfiable by an uninitialised, unwrapped provisioner -/
+example : ¬ (UninitSelected d9 ∧ RAWrapped d9) := by simp [RAWrapped, d9]
 /-- hypotheses of `removed_provisioner_refused` are satisfiable -/
 example : (⟨.no, .gone, .gone, false, false⟩ : GateIn).revoked = .no ∧
     foundProv ⟨.no, .gone, .gone, false, false⟩ = none ∧ ¬ recordsNone ⟨.no, .gone, .gone, false, false⟩ := by
